@@ -3,29 +3,43 @@
    default resolution runs (ScanT .. Resolve) or a custom resolution with one of all partial maps over
    the placeholders of the body.
 
-   Alphabet (DESIGN.md section 6 C34): fixed qubits {0, 1, 3}, qubit placeholders 1..3, one variable qubit;
-   fixed labels {a_0, a_1, b_0} (the names the default resolver would like to use), label placeholders
-   1, 2 (base a, shared) and 3 (base b).  Instruction classes: a gate-like instruction on 1 or 2 qubits
+   Alphabet (DESIGN.md section 6 C34, widened): fixed qubits {0, 2, 3} (gaps), qubit placeholders 1..3, one
+   variable qubit; nine fixed labels of the shape the default resolver generates (see FixedT), label
+   placeholders 1, 2, 3 (base a, shared) and 4 (base b).  Beyond the exhaustive length bound, structured
+   "set" bodies (PickSetT, PickSetQ) combine up to MaxSetT such labels / the fixed qubits {0, 2, 3, 7} with up
+   to four label / MaxSetPh qubit placeholders.  Instruction classes: a gate-like instruction on 1 or 2 qubits
    ("Gate": the harness spells it as GATE / MEASURE / RESET / DELAY / FENCE / PULSE / CAPTURE / RAW-CAPTURE),
    a frame update on one qubit ("ShiftPhase": spelled as any of the SET- and SHIFT- instructions), SWAP-PHASES on two frames,
-   LABEL / JUMP / JUMP-WHEN (spelled JUMP-WHEN or JUMP-UNLESS).
+   one target-carrying class (spelled LABEL / JUMP / JUMP-WHEN / JUMP-UNLESS).
    Placeholders are interchangeable up to their base label, so only bodies are generated in which qubit
-   placeholders are first mentioned in the order 1, 2, 3 and label placeholder 2 after 1.
+   placeholders are first mentioned in the order 1, 2, 3 and label placeholders 2 after 1, 3 after 2.
    Pure qubit bodies, pure label bodies and mixed bodies have separate length bounds: the two resolvers
    do not interact, a mixed body only adds positions.  Custom resolution is position-independent (one
    Resolve step per instruction), so it is explored for bodies up to MaxLenCustom only. *)
 EXTENDS Placeholders, Json
-CONSTANTS MaxLenQ, MaxLenT, MaxLenMixed, MaxLenCustom
+CONSTANTS MaxLenQ, MaxLenT, MaxLenMixed, MaxLenCustom,
+          MaxSetT,      \* "set" bodies: up to this many fixed labels of generated shape ...
+          MaxSetPh      \* ... / fixed qubits with gaps, together with up to this many qubit placeholders
 
 F(n) == Fixed(n)
 P(n) == QPh(n)
-Gate1 == {QInstr("Gate", <<x>>) : x \in {F(0), F(1), F(3), P(1), P(2), P(3), QVar("q")}}
-Gate2 == {QInstr("Gate", <<x, y>>) : x, y \in {F(0), F(1), P(1), P(2)}} \ {QInstr("Gate", <<x, x>>) : x \in {F(0), F(1), P(1), P(2)}}
-Upd   == {QInstr("ShiftPhase", <<x>>) : x \in {F(0), F(1), P(1), P(2)}}
+\* fixed qubits with gaps (0, 2, 3; 7 in the set bodies): the free indices are 1, 4, 5, 6, 8, ...
+Gate1 == {QInstr("Gate", <<x>>) : x \in {F(0), F(2), F(3), P(1), P(2), P(3), QVar("q")}}
+Gate2 == {QInstr("Gate", <<x, y>>) : x, y \in {F(0), F(2), P(1), P(2)}} \ {QInstr("Gate", <<x, x>>) : x \in {F(0), F(2), P(1), P(2)}}
+Upd   == {QInstr("ShiftPhase", <<x>>) : x \in {F(0), F(2), P(1), P(2)}}
 Swap  == {QInstr("SwapPhases", <<x, y>>) : x, y \in {F(0), P(1), P(2)}} \ {QInstr("SwapPhases", <<F(0), F(0)>>), QInstr("SwapPhases", <<P(2), P(2)>>)}
 QAlphabet == Gate1 \cup Gate2 \cup Upd \cup Swap
-Targets == {TFixed("a_0"), TFixed("a_1"), TFixed("b_0"), TPh(1, "a"), TPh(2, "a"), TPh(3, "b")}
-TAlphabet == {TInstr(k, t) : k \in {"Label", "Jump", "JumpWhen"}, t \in Targets}
+
+\* Fixed labels / jump targets that look like the names the default resolver generates for base "a" - with
+\* holes (a_0, a_2, a_3 without a_1 are all reachable), a two-digit suffix, a zero-padded suffix, the base
+\* itself, and a name that merely starts with the base - and one for base "b".  Three placeholders share
+\* base "a", a fourth has base "b".  One target-carrying class ("Label"): whether a target sits in a LABEL,
+\* JUMP, JUMP-WHEN or JUMP-UNLESS is decided by the harness spellings (each position gets every kind), so
+\* names that only occur as jump targets are covered.
+FixedT  == <<"a_0", "a_1", "a_2", "a_3", "a_10", "a_00", "a", "ax_0", "b_0">>
+PhT(id) == TPh(id, IF id = 4 THEN "b" ELSE "a")
+Targets == {TFixed(FixedT[m]) : m \in DOMAIN FixedT} \cup {PhT(id) : id \in 1..4}
+TAlphabet == {TInstr("Label", t) : t \in Targets}
 
 \* canonical introduction order of placeholders
 RECURSIVE NewQPhs(_, _)
@@ -34,7 +48,7 @@ NewQPhs(seen, qs) == IF qs = <<>> THEN <<>>
                           IF q.t = "ph" /\ q.id \notin seen THEN <<q.id>> \o NewQPhs(seen \cup {q.id}, Tail(qs))
                           ELSE NewQPhs(seen, Tail(qs))
 CanonOK(b, i) ==
-  IF IsT(i) THEN (i.target.t = "ph" /\ i.target.id = 2) => 1 \in TPhIds(b)
+  IF IsT(i) THEN (i.target.t = "ph" /\ i.target.id \in {2, 3}) => (i.target.id - 1) \in TPhIds(b)
   ELSE LET seen == QPhIds(b)
            new  == NewQPhs(seen, i.qs)
        IN new = [m \in DOMAIN new |-> Cardinality(seen) + m]
@@ -46,7 +60,7 @@ LenOK(b) == Len(b) <= (IF AllQ(b) THEN MaxLenQ ELSE IF AllT(b) THEN MaxLenT ELSE
 \* custom resolvers: fixed candidate values (two placeholders deliberately share a value, one collides with
 \* a fixed name / qubit - a custom resolver may do that), every subset of the body's placeholders
 CustomQ == [id \in 1..3 |-> CASE id = 1 -> 7 [] id = 2 -> 7 [] id = 3 -> 0]
-CustomT == [id \in 1..3 |-> CASE id = 1 -> "x" [] id = 2 -> "a_0" [] id = 3 -> "x"]
+CustomT == [id \in 1..4 |-> CASE id = 1 -> "x" [] id = 2 -> "a_0" [] id = 3 -> "x" [] id = 4 -> "a_1"]
 
 Init == RunInit(<<>>, "default", EmptyFn, EmptyFn) /\ phase = "gen"
 Grow == /\ phase = "gen"
@@ -60,11 +74,33 @@ StartCustom == /\ phase = "gen" /\ Len(body) <= MaxLenCustom /\ phase' = "resolv
                /\ \E st \in SUBSET TPhIds(body) : \E sq \in SUBSET QPhIds(body) :
                      /\ tmap' = [id \in st |-> CustomT[id]] /\ qmap' = [id \in sq |-> CustomQ[id]]
                /\ UNCHANGED <<body, pc, fixedLabels, labelPhs, usedQ, qubitPhs, cursor, result>>
-Next == Grow \/ StartDefault \/ StartCustom \/ Run
-Spec == Init /\ [][Next]_vars
-
+\* "Set" bodies, longer than the exhaustive bound but structured: a set of fixed labels (resp. fixed qubits)
+\* and a run of placeholders, the fixed ones all before or all after the placeholders.
 RECURSIVE IdSeq(_)
 IdSeq(S) == IF S = {} THEN <<>> ELSE LET m == Min(S) IN <<m>> \o IdSeq(S \ {m})
+PhRunsT == {<<1>>, <<1, 2>>, <<1, 2, 3>>, <<1, 2, 3, 4>>, <<4, 1, 2, 3>>, <<1, 2, 1, 3>>}
+SetBodyT(S, run, after) ==
+  LET ids == IdSeq(S)
+      fx  == [m \in DOMAIN ids |-> TInstr("Label", TFixed(FixedT[ids[m]]))]
+      ph  == [m \in DOMAIN run |-> TInstr("Label", PhT(run[m]))]
+  IN IF after THEN ph \o fx ELSE fx \o ph
+\* the fixed qubits sit in gate-like instructions, or only inside frames (frame updates)
+SetBodyQ(S, k, after, inFrames) ==
+  LET ids == IdSeq(S)
+      fx  == [m \in DOMAIN ids |-> QInstr(IF inFrames THEN "ShiftPhase" ELSE "Gate", <<F(ids[m])>>)]
+      ph  == [m \in 1..k |-> QInstr(IF inFrames /\ m = 2 THEN "Gate" ELSE IF m % 2 = 0 THEN "ShiftPhase" ELSE "Gate", <<P(m)>>)]
+  IN IF after THEN ph \o fx ELSE fx \o ph
+PickSetT == /\ phase = "gen" /\ body = <<>> /\ phase' = "scanT"
+            /\ \E S \in {T \in SUBSET (DOMAIN FixedT) : Cardinality(T) \in 1..MaxSetT} :
+               \E run \in PhRunsT : \E after \in BOOLEAN : body' = SetBodyT(S, run, after)
+            /\ UNCHANGED <<mode, pc, fixedLabels, labelPhs, tmap, usedQ, qubitPhs, cursor, qmap, result>>
+PickSetQ == /\ phase = "gen" /\ body = <<>> /\ phase' = "scanT"
+            /\ \E S \in SUBSET {0, 2, 3, 7} : \E k \in 1..MaxSetPh : \E after \in BOOLEAN : \E fr \in BOOLEAN :
+                  S # {} /\ body' = SetBodyQ(S, k, after, fr)
+            /\ UNCHANGED <<mode, pc, fixedLabels, labelPhs, tmap, usedQ, qubitPhs, cursor, qmap, result>>
+Next == Grow \/ StartDefault \/ StartCustom \/ PickSetT \/ PickSetQ \/ Run
+Spec == Init /\ [][Next]_vars
+
 Pairs(f) == LET ids == IdSeq(DOMAIN f) IN [m \in DOMAIN ids |-> [id |-> ids[m], v |-> f[ids[m]]]]
 Emit == phase = "done" =>
           PrintT(<<"CASE", ToJson([body |-> body, mode |-> mode, tmap |-> Pairs(tmap), qmap |-> Pairs(qmap),
